@@ -117,6 +117,19 @@ pub fn open_flow(
                 }
             }
 
+            // when the flow asset is the fee asset, the funds sent have to cover exactly the fee
+            // plus the flow amount that remains after it
+            if let AssetInfo::NativeToken {
+                denom: flow_asset_denom,
+            } = flow_asset.info.clone()
+            {
+                if flow_fee_denom == flow_asset_denom
+                    && paid_amount != flow_asset.amount.checked_add(flow_fee.amount)?
+                {
+                    return Err(ContractError::FlowAssetNotSent);
+                }
+            }
+
             // send fee to fee collector
             messages.push(
                 BankMsg::Send {
